@@ -10,6 +10,8 @@
 //        ball <k> <dim> <rbits>      RNG::uniformInBall                  -> bits…
 //     Log messages of RNG::setSeed are captured through ompl::msg::OutputHandler.
 //
+//  "samp"  sampler outputs must not depend on what the output state held before the call (see sampMode()).
+//
 //  "plan"  each following line runs ONE planner once (normally one line per process):
 //        run planner=<name> env=<box2|box3|se2|ctl2|ml3> seed=<s> budget=<n> [trace=1]
 //     RNG::setSeed(seed) first, then the problem is built, the planner is run under a termination condition that
@@ -23,6 +25,7 @@
 #include "common/proto.h"
 
 #include <algorithm>
+#include <cmath>
 #include <csignal>
 #include <cstdlib>
 #include <functional>
@@ -397,9 +400,102 @@ struct Problem
     ob::ProblemDefinitionPtr pdef;
 };
 
+// Freshly allocated states are uninitialised by contract.  To make "what a fresh state happens to contain" a controlled,
+// process-specific input (independent of malloc internals), the planner problems use these subclasses, whose allocState()
+// leaves an in-bounds filler chosen by C20_STATE_FILL=<1|2> in every new state (unset: plain allocState).
+static int stateFill()
+{
+    static const int k = [] {
+        const char *e = getenv("C20_STATE_FILL");
+        return e ? atoi(e) : 0;
+    }();
+    return k;
+}
+class FillRV : public ob::RealVectorStateSpace
+{
+public:
+    using ob::RealVectorStateSpace::RealVectorStateSpace;
+    ob::State *allocState() const override
+    {
+        ob::State *s = ob::RealVectorStateSpace::allocState();
+        if (int k = stateFill())
+            for (unsigned i = 0; i < getDimension(); ++i)
+                s->as<StateType>()->values[i] = (k == 1 ? 0.137 : 0.861) - 0.01 * i;
+        return s;
+    }
+};
+class FillSO2 : public ob::SO2StateSpace
+{
+public:
+    ob::State *allocState() const override
+    {
+        ob::State *s = ob::SO2StateSpace::allocState();
+        if (int k = stateFill())
+            s->as<StateType>()->value = (k == 1 ? 0.5 : -2.1);
+        return s;
+    }
+};
+
+// projection of the compound spaces below: the positional (first) component
+class FirstCompProj : public ob::ProjectionEvaluator
+{
+public:
+    FirstCompProj(const ob::StateSpace *space, unsigned dim) : ob::ProjectionEvaluator(space), dim_(dim)
+    {
+    }
+    unsigned int getDimension() const override
+    {
+        return dim_;
+    }
+    void defaultCellSizes() override
+    {
+        cellSizes_.assign(dim_, 0.1);
+    }
+    void project(const ob::State *state, Eigen::Ref<Eigen::VectorXd> projection) const override
+    {
+        const double *v = state->as<ob::CompoundState>()->components[0]->as<ob::RealVectorStateSpace::StateType>()->values;
+        for (unsigned i = 0; i < dim_; ++i)
+            projection[i] = v[i];
+    }
+
+private:
+    unsigned dim_;
+};
+
+static std::shared_ptr<FillRV> unitRV(unsigned dim)
+{
+    auto space = std::make_shared<FillRV>(dim);
+    ob::RealVectorBounds bounds(dim);
+    bounds.setLow(0.);
+    bounds.setHigh(1.);
+    space->setBounds(bounds);
+    return space;
+}
+
+// positional part (weight 1) next to a ZERO-weight SO(2) component and a 1e-300-weight real component
+// (LTLSpaceInformation-style spaces carry such bookkeeping components)
+static ob::StateSpacePtr zeroWeightCompound(unsigned dim)
+{
+    auto cs = std::make_shared<ob::CompoundStateSpace>();
+    cs->addSubspace(unitRV(dim), 1.0);
+    cs->addSubspace(std::make_shared<FillSO2>(), 0.0);
+    cs->addSubspace(unitRV(1), 1e-300);
+    cs->registerDefaultProjection(std::make_shared<FirstCompProj>(cs.get(), dim));
+    cs->lock();
+    return cs;
+}
+
+static void setCompound(ob::ScopedState<> &st, unsigned dim, double xy, double yaw, double z)
+{
+    for (unsigned i = 0; i < dim; ++i)
+        st[i] = xy;
+    st[dim] = yaw;
+    st[dim + 1] = z;
+}
+
 static ob::SpaceInformationPtr rvSpace(unsigned dim, Counters *c)
 {
-    auto space = std::make_shared<ob::RealVectorStateSpace>(dim);
+    auto space = std::make_shared<FillRV>(dim);
     ob::RealVectorBounds bounds(dim);
     bounds.setLow(0.);
     bounds.setHigh(1.);
@@ -451,13 +547,62 @@ static bool buildProblem(const std::string &env, Counters *c, Problem &p)
         p.pdef = std::make_shared<ob::ProblemDefinition>(p.si);
         p.pdef->setStartAndGoalStates(start, goal, 0.05);
     }
+    else if (env == "cz2" || env == "cz3")
+    {
+        unsigned dim = env == "cz2" ? 2 : 3;
+        auto space = zeroWeightCompound(dim);
+        p.si = std::make_shared<ob::SpaceInformation>(space);
+        p.si->setStateValidityChecker(std::make_shared<BoxChecker>(p.si, boxesFor(dim), c));
+        p.si->setStateValidityCheckingResolution(0.02);
+        p.sis.push_back(p.si);
+        ob::ScopedState<> start(space), goal(space);
+        setCompound(start, dim, 0.1, 0.3, 0.5);
+        setCompound(goal, dim, 0.9, -1.0, 0.25);
+        p.pdef = std::make_shared<ob::ProblemDefinition>(p.si);
+        p.pdef->setStartAndGoalStates(start, goal, 0.05);
+    }
+    else if (env == "ctlz")
+    {
+        auto space = zeroWeightCompound(2);
+        auto cspace = std::make_shared<oc::RealVectorControlSpace>(space, 2);
+        ob::RealVectorBounds cb(2);
+        cb.setLow(-1.);
+        cb.setHigh(1.);
+        cspace->setBounds(cb);
+        p.csi = std::make_shared<oc::SpaceInformation>(space, cspace);
+        p.si = p.csi;
+        p.csi->setStateValidityChecker(std::make_shared<BoxChecker>(p.csi, boxesFor(2), c));
+        p.csi->setStatePropagator([c](const ob::State *s, const oc::Control *u, const double dt, ob::State *out) {
+            auto *cs = s->as<ob::CompoundState>();
+            const double *x = cs->components[0]->as<ob::RealVectorStateSpace::StateType>()->values;
+            double yaw = cs->components[1]->as<ob::SO2StateSpace::StateType>()->value;
+            double z = cs->components[2]->as<ob::RealVectorStateSpace::StateType>()->values[0];
+            const double *v = u->as<oc::RealVectorControlSpace::ControlType>()->values;
+            double a = x[0] + v[0] * dt, b = x[1] + v[1] * dt;
+            c->query({x[0], x[1], yaw, z, v[0], v[1], dt}, 2, "p");
+            auto *co = out->as<ob::CompoundState>();
+            co->components[0]->as<ob::RealVectorStateSpace::StateType>()->values[0] = a;
+            co->components[0]->as<ob::RealVectorStateSpace::StateType>()->values[1] = b;
+            double ny = yaw + 0.5 * dt * v[0];
+            if (ny > 3.0)
+                ny -= 6.0;
+            if (ny < -3.0)
+                ny += 6.0;
+            co->components[1]->as<ob::SO2StateSpace::StateType>()->value = ny;
+            co->components[2]->as<ob::RealVectorStateSpace::StateType>()->values[0] = z;
+        });
+        p.csi->setPropagationStepSize(0.02);
+        p.csi->setMinMaxControlDuration(1, 10);
+        p.sis.push_back(p.si);
+        ob::ScopedState<> start(space), goal(space);
+        setCompound(start, 2, 0.1, 0.3, 0.5);
+        setCompound(goal, 2, 0.9, -1.0, 0.25);
+        p.pdef = std::make_shared<ob::ProblemDefinition>(p.si);
+        p.pdef->setStartAndGoalStates(start, goal, 0.05);
+    }
     else if (env == "ctl2")
     {
-        auto space = std::make_shared<ob::RealVectorStateSpace>(2);
-        ob::RealVectorBounds bounds(2);
-        bounds.setLow(0.);
-        bounds.setHigh(1.);
-        space->setBounds(bounds);
+        auto space = unitRV(2);
         auto cspace = std::make_shared<oc::RealVectorControlSpace>(space, 2);
         ob::RealVectorBounds cb(2);
         cb.setLow(-1.);
@@ -553,6 +698,25 @@ static const std::map<std::string, Factory> &factories()
         {"BiRLRT", geo<og::BiRLRT>()},
         {"CForest", geo<og::CForest>()},
         {"AnytimePathShortening", geo<og::AnytimePathShortening>()},
+        {"RRT+is", [](Problem &p) -> ob::PlannerPtr {
+             if (p.csi)
+                 return nullptr;
+             auto pl = std::make_shared<og::RRT>(p.si, true);
+             return pl;
+         }},
+        {"RRTConnect+is", [](Problem &p) -> ob::PlannerPtr {
+             if (p.csi)
+                 return nullptr;
+             auto pl = std::make_shared<og::RRTConnect>(p.si, true);
+             return pl;
+         }},
+        {"control::RRT+is", [](Problem &p) -> ob::PlannerPtr {
+             if (!p.csi)
+                 return nullptr;
+             auto pl = std::make_shared<oc::RRT>(p.csi);
+             pl->setIntermediateStates(true);
+             return pl;
+         }},
         {"control::RRT", ctl<oc::RRT>()},
         {"control::SST", ctl<oc::SST>()},
         {"control::EST", ctl<oc::EST>()},
@@ -775,6 +939,260 @@ static int planMode()
     return 0;
 }
 
+
+// ------------------------------------------------------------------------------------------------ sampler mode
+// "samp": output of a sampler call must be a function of the draws and the inputs only — never of what the output
+// state held before the call.  Lines:
+//     seed <s>                                              RNG::setSeed (once, first)
+//     samp space=<spec> kind=<kind> fill=<0..255> n=<n>
+// builds the space, allocates its sampler (its RNG takes the next seed of the global sequence), and calls it n times;
+// before every call the output state is overwritten, through deserialize(), with a byte pattern derived from `fill`.
+// Prints the serialized bytes of every output.  The check runs the same script in two processes that differ only in
+// `fill` and compares (for SubspaceStateSampler: inside the subspace's byte range equal, outside untouched).
+#include <ompl/base/spaces/SO3StateSpace.h>
+#include <ompl/base/spaces/SE3StateSpace.h>
+#include <ompl/base/spaces/DiscreteStateSpace.h>
+#include <ompl/base/spaces/TimeStateSpace.h>
+#include <ompl/base/spaces/DubinsStateSpace.h>
+#include <ompl/base/spaces/ReedsSheppStateSpace.h>
+#include <ompl/base/spaces/WrapperStateSpace.h>
+#include <ompl/base/samplers/UniformValidStateSampler.h>
+#include <ompl/base/samplers/GaussianValidStateSampler.h>
+#include <ompl/base/samplers/ObstacleBasedValidStateSampler.h>
+#include <ompl/base/samplers/BridgeTestValidStateSampler.h>
+#include <ompl/base/samplers/MaximizeClearanceValidStateSampler.h>
+#include <ompl/base/samplers/MinimumClearanceValidStateSampler.h>
+
+static ob::StateSpacePtr sampSpace(const std::string &spec)
+{
+    auto rv = [](unsigned d) {
+        auto sp = std::make_shared<ob::RealVectorStateSpace>(d);
+        ob::RealVectorBounds b(d);
+        b.setLow(-1.);
+        b.setHigh(2.);
+        sp->setBounds(b);
+        return sp;
+    };
+    ob::RealVectorBounds b2(2), b3(3);
+    b2.setLow(-1.);
+    b2.setHigh(2.);
+    b3.setLow(-1.);
+    b3.setHigh(2.);
+    if (spec == "rv1")
+        return rv(1);
+    if (spec == "rv3")
+        return rv(3);
+    if (spec == "so2")
+        return std::make_shared<ob::SO2StateSpace>();
+    if (spec == "so3")
+        return std::make_shared<ob::SO3StateSpace>();
+    if (spec == "se2" || spec == "wrap-se2")
+    {
+        auto sp = std::make_shared<ob::SE2StateSpace>();
+        sp->setBounds(b2);
+        if (spec == "se2")
+            return sp;
+        return std::make_shared<ob::WrapperStateSpace>(sp);
+    }
+    if (spec == "se3")
+    {
+        auto sp = std::make_shared<ob::SE3StateSpace>();
+        sp->setBounds(b3);
+        return sp;
+    }
+    if (spec == "discrete")
+        return std::make_shared<ob::DiscreteStateSpace>(0, 7);
+    if (spec == "time")
+        return std::make_shared<ob::TimeStateSpace>();
+    if (spec == "timeb")
+    {
+        auto sp = std::make_shared<ob::TimeStateSpace>();
+        sp->setBounds(0., 5.);
+        return sp;
+    }
+    if (spec == "dubins")
+    {
+        auto sp = std::make_shared<ob::DubinsStateSpace>(0.5);
+        sp->setBounds(b2);
+        return sp;
+    }
+    if (spec == "reedsshepp")
+    {
+        auto sp = std::make_shared<ob::ReedsSheppStateSpace>(0.5);
+        sp->setBounds(b2);
+        return sp;
+    }
+    if (spec == "cz" || spec == "wrap-cz")
+    {
+        auto cs = std::make_shared<ob::CompoundStateSpace>();
+        cs->addSubspace(rv(2), 1.0);
+        cs->addSubspace(std::make_shared<ob::SO2StateSpace>(), 0.0);
+        cs->addSubspace(rv(1), 1e-300);
+        cs->addSubspace(std::make_shared<ob::DiscreteStateSpace>(0, 3), 0.0);
+        cs->lock();
+        if (spec == "cz")
+            return cs;
+        return std::make_shared<ob::WrapperStateSpace>(cs);
+    }
+    if (spec == "cnest")
+    {
+        auto inner = std::make_shared<ob::CompoundStateSpace>();
+        inner->addSubspace(rv(1), 0.0);
+        inner->addSubspace(std::make_shared<ob::SO3StateSpace>(), 1.0);
+        auto se2 = std::make_shared<ob::SE2StateSpace>();
+        se2->setBounds(b2);
+        auto cs = std::make_shared<ob::CompoundStateSpace>();
+        cs->addSubspace(se2, 1.0);
+        cs->addSubspace(inner, 0.5);
+        cs->addSubspace(std::make_shared<ob::TimeStateSpace>(), 0.0);
+        cs->lock();
+        return cs;
+    }
+    return nullptr;
+}
+
+class BandChecker : public ob::StateValidityChecker
+{
+public:
+    using ob::StateValidityChecker::StateValidityChecker;
+    bool isValid(const ob::State *s) const override
+    {
+        std::vector<double> r;
+        si_->getStateSpace()->copyToReals(r, s);
+        if (r.empty())
+            return true;
+        double f = std::fabs(r[0] * 3.0);
+        return f - std::floor(f) >= 0.3;
+    }
+};
+
+static std::string hexOf(const std::vector<unsigned char> &b)
+{
+    static const char *d = "0123456789abcdef";
+    std::string s;
+    for (unsigned char c : b)
+    {
+        s += d[c >> 4];
+        s += d[c & 15];
+    }
+    return s;
+}
+
+static int sampMode()
+{
+    ompl::msg::noOutputHandler();
+    std::string line;
+    while (vp::readLine(line))
+    {
+        auto t = vp::tokens(line);
+        if (t.empty())
+            continue;
+        if (t[0] == "seed" && t.size() == 2 && vp::parseNat(t[1]))
+        {
+            ompl::RNG::setSeed(*vp::parseNat(t[1]));
+            std::cout << "ok\n";
+            continue;
+        }
+        auto a = kv(t);
+        if (t[0] != "samp" || a.count("?") || !a.count("space") || !a.count("kind") || !a.count("fill") || !a.count("n") ||
+            !vp::parseNat(a["fill"]) || !vp::parseNat(a["n"]))
+        {
+            std::cout << "bad-op\n";
+            continue;
+        }
+        ob::StateSpacePtr space = sampSpace(a["space"]);
+        if (!space)
+        {
+            std::cout << "bad-op\n";
+            continue;
+        }
+        auto si = std::make_shared<ob::SpaceInformation>(space);
+        si->setStateValidityChecker(std::make_shared<BandChecker>(si));
+        si->setup();
+        const unsigned L = space->getSerializationLength();
+        const unsigned fill = *vp::parseNat(a["fill"]) & 0xff, n = *vp::parseNat(a["n"]);
+        std::string kind = a["kind"];
+        unsigned lo = 0, hi = L;
+        ob::StateSamplerPtr ss;
+        ob::ValidStateSamplerPtr vs;
+        std::string call;  // uniform | near | gauss
+        if (kind.rfind("sub", 0) == 0 && kind.size() > 5 && kind[4] == '-')
+        {
+            auto *cs = dynamic_cast<ob::CompoundStateSpace *>(space.get());
+            unsigned j = kind[3] - '0';
+            if (!cs || j >= cs->getSubspaceCount())
+            {
+                std::cout << "not-applicable\n";
+                continue;
+            }
+            lo = 0;
+            for (unsigned i = 0; i < j; ++i)
+                lo += cs->getSubspace(i)->getSerializationLength();
+            hi = lo + cs->getSubspace(j)->getSerializationLength();
+            ss = std::make_shared<ob::SubspaceStateSampler>(space.get(), cs->getSubspace(j).get(), 1.0);
+            call = kind.substr(5);
+        }
+        else if (kind.rfind("valid-", 0) == 0)
+        {
+            std::string k = kind.substr(6);
+            auto dash = k.find('-');
+            call = dash == std::string::npos ? "uniform" : k.substr(dash + 1);
+            k = k.substr(0, dash);
+            if (k == "uniform")
+                vs = std::make_shared<ob::UniformValidStateSampler>(si.get());
+            else if (k == "gauss")
+                vs = std::make_shared<ob::GaussianValidStateSampler>(si.get());
+            else if (k == "obstacle")
+                vs = std::make_shared<ob::ObstacleBasedValidStateSampler>(si.get());
+            else if (k == "bridge")
+                vs = std::make_shared<ob::BridgeTestValidStateSampler>(si.get());
+            else if (k == "maxclear")
+                vs = std::make_shared<ob::MaximizeClearanceValidStateSampler>(si.get());
+            else if (k == "minclear")
+                vs = std::make_shared<ob::MinimumClearanceValidStateSampler>(si.get());
+        }
+        else
+        {
+            ss = space->allocStateSampler();
+            call = kind;
+        }
+        if ((!ss && !vs) || (call != "uniform" && call != "near" && call != "gauss") || (vs && call == "gauss"))
+        {
+            std::cout << "bad-op\n";
+            continue;
+        }
+        ob::State *out = space->allocState(), *near = space->allocState();
+        space->allocStateSampler()->sampleUniform(near);  // a deterministic reference state (own RNG, next global seed)
+        std::vector<unsigned char> buf(L), ser(L);
+        std::string outs, rets;
+        for (unsigned it = 0; it < n; ++it)
+        {
+            for (unsigned i = 0; i < L; ++i)
+                buf[i] = (unsigned char)(fill + 7 * i + 13 * it);
+            space->deserialize(out, buf.data());
+            bool ret = true;
+            if (ss)
+            {
+                if (call == "uniform")
+                    ss->sampleUniform(out);
+                else if (call == "near")
+                    ss->sampleUniformNear(out, near, 0.2);
+                else
+                    ss->sampleGaussian(out, near, 0.1);
+            }
+            else
+                ret = call == "uniform" ? vs->sample(out) : vs->sampleNear(out, near, 0.3);
+            rets += ret ? '1' : '0';
+            space->serialize(ser.data(), out);
+            outs += (it ? "," : "") + hexOf(ser);
+        }
+        space->freeState(out);
+        space->freeState(near);
+        std::cout << "len=" << L << " mask=" << lo << ":" << hi << " r=" << rets << " out=" << outs << "\n";
+    }
+    return 0;
+}
+
 int main()
 {
     alarm(300);  // watchdog only: kills the process, never influences an answer
@@ -786,6 +1204,8 @@ int main()
         return rngMode();
     if (hdr.size() == 1 && hdr[0] == "plan")
         return planMode();
+    if (hdr.size() == 1 && hdr[0] == "samp")
+        return sampMode();
     std::cout << "bad-header\n";
     return 2;
 }
